@@ -5,7 +5,7 @@ import itertools
 from props.common import enc_str, enc_list, Reader, environ, FragStream
 
 ID = 'C06'
-COQ_MODEL = 'model.Multipart'
+COQ_MODEL = 'model.MultipartFeed'
 COQ_CORR = 'corr_C06'
 N_QUICK = 2600
 N_THOROUGH = 12000
@@ -16,7 +16,9 @@ RULE = ('cases = corpus (F6/F7 witnesses, every single cut of 6 adversarial bodi
         'cut into chunks (single/double/random cuts, byte-at-a-time, k-regular, empty chunks) fed to '
         'MultipartMarkup.parse, or sent through WSGI with max_memfile_size as the chunking, or POSTed through '
         'Ombott.__call__ with wsgi.input a fragmenting stream (schedules of short reads incl. 1-byte reads and a first '
-        'read shorter than the opening boundary line) x max_memfile_size below/at/above the body size; plus a malformed stream '
+        'read shorter than the opening boundary line) x max_memfile_size below/at/above the body size x Content-Length '
+        'equal/above (early EOF)/below the data x max_body_size x Content-Type variants x a warm application, or as '
+        'Transfer-Encoding: chunked with arbitrary transfer-chunk sizes; str boundaries; plus a malformed stream '
         '(mutations, random bytes over the small alphabet, CR in the boundary).  thorough adds every single and double '
         'cut of every prefix of the adversarial bodies (explicit cases for short bodies, in-oracle sweeps for all). '
         'non-trivial = at least two non-empty chunks and at least one cut falls inside a delimiter, a CRLFCRLF, the '
@@ -28,10 +30,10 @@ TRUSTED = ['modelled, not verified: the header-end regular expression end_header
            'no section hypotheses: every C06 theorem is closed; wf_prefix is the executable MultipartRef.wf_prefixb, '
            'validated on every run against an independent Python statement (tools/props/C06.py: py_wf)',
            'Request.forms/files under varied max_memfile_size: correspondence and oracle only (no C06 theorem)',
-           'via=wsgi_frag: the chunk list given to the model is computed by the harness (tools/props/C06.py iter_parts) '
-           'from the read schedule, following _iter_body as modelled and proved in C04 (coq/model/Body.v cl_loop over '
-           'Stream.v: each read asks min(rest, buff) and receives min(asked, k+1, remaining)); it is not observed from the '
-           'implementation, so a _body_read that feeds other parts to the parser shows up as a disagreement']
+           'via=wsgi_frag: the model computes the parts itself (coq/model/MultipartFeed.v body_parts over Stream.v, '
+           'theorem C06_result_independent_of_reads); via=wsgi_chunked: the part list (every transfer chunk cut into '
+           'buffers, full reads) is computed by the harness (chunked_parts) — _iter_chunked itself is C05\'s model; '
+           'a request refused with 413 because of max_body_size is checked by the oracle only (C13\'s subject)']
 ASSUMPTIONS = ['CR does not occur in the boundary (the code rejects such a boundary with InvalidBoundaryError)',
                'split independence is claimed for wf_prefix bodies (coq/model/MultipartRef.v: wf_prefixb); for other '
                'inputs the parser is knowingly split dependent (C12 covers them: no server fault)']
@@ -172,11 +174,12 @@ def mk_wsgi(B, body, buf, wf=None, label='wsgi'):
     return mk(B, [list(body[i:i + buf]) for i in range(0, len(body), buf)], via='wsgi', wf=wf, buf=buf, label=label)
 
 
-def iter_parts(body, buf, sched):
+def iter_parts(body, buf, sched, cl=None):
     """the parts _iter_body yields (and _body_read feeds to markup.parse) when wsgi.input is a FragStream with
-    this schedule: each read asks for min(rest, buf) bytes and gets min(asked, k+1, remaining)"""
+    this schedule: each read asks for min(rest, buf) bytes and gets min(asked, k+1, remaining).  Only used to
+    label/shrink cases: for via=wsgi_frag the MODEL computes the parts itself (MultipartFeed.body_parts)."""
     sched = list(sched)
-    pos, rest, parts = 0, len(body), []
+    pos, rest, parts = 0, (len(body) if cl is None else cl), []
     while rest > 0:
         k = min(rest, buf)
         if sched:
@@ -190,10 +193,41 @@ def iter_parts(body, buf, sched):
     return parts
 
 
-def mk_frag(B, body, buf, sched, wf=None, label='wsgi-frag'):
+CTYPES = ['multipart/form-data; boundary=%s', 'multipart/form-data; boundary=%s; charset=utf-8',
+          'multipart/form-data; charset=utf-8; boundary=%s', 'multipart/mixed; boundary=%s']
+
+
+def mk_frag(B, body, buf, sched, wf=None, label='wsgi-frag', cl=None, maxb=None, ctype=0, warm=False):
     buf = max(1, buf)
-    c = mk(B, iter_parts(body, buf, sched), via='wsgi_frag', wf=wf, buf=buf, label=label)
-    c['sched'] = list(sched)
+    cl = len(body) if cl is None else cl
+    c = mk(B, iter_parts(body, buf, sched, cl), via='wsgi_frag', wf=wf, buf=buf, label=label)
+    c.update(sched=list(sched), data=list(body), cl=cl, maxb=maxb, ctype=ctype, warm=warm)
+    return c
+
+
+def chunked_parts(pieces, buf):
+    """parts _iter_chunked yields from a stream with full reads: every transfer chunk is cut into buffers"""
+    parts = []
+    for pc in pieces:
+        for i in range(0, len(pc), buf):
+            parts.append(list(pc[i:i + buf]))
+    return parts
+
+
+def mk_chunked(B, body, buf, sizes, wf=None, with_cl=False, label='wsgi-chunked'):
+    """Transfer-Encoding: chunked; sizes = lengths of the transfer chunks (the rest goes into a last one)"""
+    buf = max(8, buf)
+    pieces, pos = [], 0
+    for sz in sizes:
+        if pos >= len(body):
+            break
+        sz = max(1, sz)
+        pieces.append(body[pos:pos + sz])
+        pos += sz
+    if pos < len(body):
+        pieces.append(body[pos:])
+    c = mk(B, chunked_parts(pieces, buf), via='wsgi_chunked', wf=wf, buf=buf, label=label)
+    c.update(pieces=[list(pc) for pc in pieces], with_cl=with_cl)
     return c
 
 
@@ -230,6 +264,25 @@ def corpus():
     for buf in (50, n - 1, n, n + 1, 102400):
         for sched in ([], [10], [0] * n, [3, 7, 100], [39, 0, 1, 41], [n - 2], [n // 2] * 3):
             out.append(mk_frag(sb, SUITE_BODY, buf, sched, wf=True))
+    # more dimensions of the same path: declared length beyond / below the data (early EOF, data after the body),
+    # max_body_size at the limit, Content-Type variants, a warm application (request object reused)
+    out.append(mk_frag(sb, SUITE_BODY, 102400, [10], wf=True, cl=n + 7, label='wsgi-frag early EOF'))
+    out.append(mk_frag(sb, SUITE_BODY, 64, [5, 200], wf=True, cl=n + 1, label='wsgi-frag early EOF'))
+    out.append(mk_frag(sb, SUITE_BODY, 102400, [0, 0, 90], wf=True, cl=n - 50, label='wsgi-frag CL below data'))
+    out.append(mk_frag(sb, SUITE_BODY, 100, [], wf=True, cl=137, label='wsgi-frag CL below data'))
+    out.append(mk_frag(sb, SUITE_BODY, 102400, [41], wf=True, maxb=n, label='wsgi-frag max_body_size = size'))
+    out.append(mk_frag(sb, SUITE_BODY, 70, [41], wf=True, maxb=n - 1, label='wsgi-frag max_body_size exceeded'))
+    for ct in range(1, len(CTYPES)):
+        out.append(mk_frag(sb, SUITE_BODY, n + 1, [41, 3], wf=True, ctype=ct, label='wsgi-frag ctype'))
+    out.append(mk_frag(sb, SUITE_BODY, n, [17], wf=True, warm=True, label='wsgi-frag warm app'))
+    out.append(mk_frag(sb, SUITE_BODY, 90, [], wf=True, warm=True, label='wsgi-frag warm app'))
+    for buf in (8, 64, n, 102400):
+        out.append(mk_chunked(sb, SUITE_BODY, buf, [41, 1, 60, 100], wf=True))
+        out.append(mk_chunked(sb, SUITE_BODY, buf, [n], wf=True, with_cl=True))
+        out.append(mk_chunked(sb, SUITE_BODY, buf, [1] * 50, wf=True))
+    out.append(mk(b'B', cut(ADVERSARIAL[0][1], [7]), via='markup_str', wf=True, label='str boundary'))
+    out.append(mk(b'\xff\x00$', cut(build(b'\xff\x00$', [(b'a', b'\xff\r\n--\xff')], epilogue=CRLF), [9, 20]), wf=True,
+                  label='boundary bytes'))
     wB, wbody = WSGI_BODY
     for buf in (7, len(wbody), len(wbody) + 100):
         for sched in ([0] * len(wbody), [2], [4, 4, 4, 4, 200], [len(wbody) - 4]):
@@ -245,7 +298,8 @@ def corpus():
 
 # ------------------------------------------------------------------ generators
 
-BOUNDARIES = [b'-', b'--', b'abab', b'B', b'aab', b'a', b'x-x', b'\n', b'aa', b'-a-', b'----WebKitFormBoundaryX']
+BOUNDARIES = [b'-', b'--', b'abab', b'B', b'aab', b'a', b'x-x', b'\n', b'aa', b'-a-', b'----WebKitFormBoundaryX',
+              b'\xff\xfe', b'a\x00b', b'$^.*', b'\n\n', b'']
 
 
 def gen_boundary(rng):
@@ -356,7 +410,10 @@ def gen(rng, n):
             B, body, wf = gen_body(rng)
             if rng.random() < 0.6:
                 body = body[:rng.randrange(0, len(body) + 1)]
-            yield mk(B, gen_cuts(rng, B, body), wf=wf, label='grammar' if wf else 'grammar-exotic-headers')
+            via = 'markup'
+            if rng.random() < 0.05 and all(x < 128 for x in B):
+                via = 'markup_str'
+            yield mk(B, gen_cuts(rng, B, body), via=via, wf=wf, label='grammar' if wf else 'grammar-exotic-headers')
         elif r < 0.72:
             B, body, _ = gen_body(rng, real=True)
             if rng.random() < 0.3:
@@ -370,7 +427,24 @@ def gen(rng, n):
                     sched = [0] * n
                 else:
                     sched = [rng.choice([0, 0, 1, 2, 5, len(B) + 1, 20, 60, 1000]) for _ in range(rng.randrange(1, 30))]
-                yield mk_frag(B, body, buf, sched, wf=True)
+                r2 = rng.random()
+                if r2 < 0.2:
+                    yield mk_chunked(B, body, rng.choice([8, 16, 50, n, n + 9]),
+                                     [rng.randrange(1, 40) for _ in range(rng.randrange(1, 12))], wf=True,
+                                     with_cl=rng.random() < 0.3)
+                    continue
+                kw = {}
+                if r2 < 0.35:
+                    kw['cl'] = n + rng.randrange(1, 9)
+                elif r2 < 0.5:
+                    kw['cl'] = rng.randrange(0, n + 1)
+                elif r2 < 0.6:
+                    kw['maxb'] = rng.choice([n, n + 5, max(0, n - 1), n // 2])
+                elif r2 < 0.7:
+                    kw['ctype'] = rng.randrange(1, len(CTYPES))
+                elif r2 < 0.8:
+                    kw['warm'] = True
+                yield mk_frag(B, body, buf, sched, wf=True, **kw)
         elif r < 0.9:
             B, body, _ = gen_body(rng)
             body = mutate(rng, body)
@@ -437,10 +511,10 @@ def err_name(exc):
     return n if n in KNOWN_ERRS else 'other:' + n
 
 
-def parse_chunks(B, chunks):
+def parse_chunks(B, chunks, as_str=False):
     from ombott.request_pkg.multipart import MultipartMarkup
     try:
-        m = MultipartMarkup(B)
+        m = MultipartMarkup(B.decode('ascii') if as_str else B)
     except Exception as e:
         return dict(secs=[], err=err_name(e))
     for c in chunks:
@@ -491,10 +565,10 @@ def wsgi_forms(B, body, buf):
     return res
 
 
-def wsgi_call(B, body, buf, sched):
-    """POST through Ombott.__call__; wsgi.input delivers the body with short reads per the schedule"""
+def wsgi_call(B, wire, buf, sched, cl=None, maxb=None, ctype=0, warm=False, chunked=False):
+    """POST through Ombott.__call__; wsgi.input delivers the bytes with short reads per the schedule"""
     from ombott import Ombott
-    app = Ombott(dict(max_memfile_size=buf, max_body_size=None))
+    app = Ombott(dict(max_memfile_size=buf, max_body_size=maxb))
     seen = {}
 
     def canon_val(v):
@@ -505,21 +579,33 @@ def wsgi_call(B, body, buf, sched):
             return ['upload', v.raw_filename, list(v.file.read())]
         return v
 
+    def mk_snap(mk_):
+        return None if mk_ is None else dict(
+            secs=[[0 if nm == 'headers' else 1, se[0], se[1]] for nm, se in mk_.markups], err=err_name(mk_.error))
+
     @app.post('/')
     def handler():
         rq = app.request
+        seen.clear()
         try:
             b = rq.body
-            mk_ = getattr(b, 'ombott_markup', None)
-            seen['markup'] = None if mk_ is None else dict(
-                secs=[[0 if nm == 'headers' else 1, se[0], se[1]] for nm, se in mk_.markups], err=err_name(mk_.error))
+            seen['markup'] = mk_snap(getattr(b, 'ombott_markup', None))
+            # a second access: cached body, the parser is not run again
+            if mk_snap(getattr(rq.body, 'ombott_markup', None)) != seen['markup']:
+                seen['unstable'] = 'markup changed on the second access of Request.body'
         except Exception as e:
-            seen['markup'] = dict(secs=[], err='body:' + type(e).__name__)
-            return 'x'
+            code = getattr(e, 'status_code', None)
+            seen['markup'] = dict(secs=[], err='body:' + type(e).__name__ + ('' if code is None else ':%s' % code))
+            raise
         try:
             forms, files = rq.forms, rq.files
             seen['forms'] = sorted([k, canon_val(v)] for k, v in forms.items())
             seen['files'] = sorted([k, canon_val(v)] for k, v in files.items())
+            post = rq.POST
+            if sorted(post.keys()) != sorted(set(forms.keys()) | set(files.keys())):
+                seen['unstable'] = 'POST keys differ from forms + files'
+            if sorted([k, canon_val(v)] for k, v in rq.forms.items()) != seen['forms']:
+                seen['unstable'] = 'forms changed on the second access'
             seen['post'] = 'ok'
         except Exception as e:
             code = getattr(e, 'status_code', None)
@@ -529,17 +615,37 @@ def wsgi_call(B, body, buf, sched):
                 seen['post'] = type(e).__name__ + ('' if code is None else ':%s' % code)
         return 'x'
 
-    st = FragStream(body, sched)
-    env = environ('POST', '/', **{'wsgi.input': st})
-    env['CONTENT_LENGTH'] = str(len(body))
-    env['CONTENT_TYPE'] = 'multipart/form-data; boundary=' + B.decode('latin1')
-    status = []
-    out = app(env, lambda s_, h_, e_=None: status.append(s_))
-    b''.join(out)
-    if hasattr(out, 'close'):
-        out.close()
-    seen['status'] = status[0][:3] if status else None
-    return seen
+    def call(B_, wire_, sched_, cl_, ctype_, chunked_):
+        st = FragStream(wire_, sched_)
+        env = environ('POST', '/', **{'wsgi.input': st})
+        env.pop('CONTENT_LENGTH', None)
+        if cl_ is not None:
+            env['CONTENT_LENGTH'] = str(cl_)
+        if chunked_:
+            env['HTTP_TRANSFER_ENCODING'] = 'chunked'
+        env['CONTENT_TYPE'] = CTYPES[ctype_] % B_.decode('latin1')
+        status = []
+        out = app(env, lambda s_, h_, e_=None: status.append(s_))
+        b''.join(out)
+        if hasattr(out, 'close'):
+            out.close()
+        return status[0][:3] if status else None
+
+    if warm:
+        # the same application (and its request object) has served another multipart upload before
+        other = build(b'zz', [(disp(b'w'), b'warm-up')], epilogue=CRLF)
+        call(b'zz', other, [1, 2], len(other), 0, False)
+    seen.clear()
+    status = call(B, wire, sched, (len(wire) if cl is None and not chunked else cl), ctype, chunked)
+    res = dict(seen)
+    if status == '413' and 'post' not in res:
+        res['post'] = 'too_large'
+    res['status'] = status
+    return res
+
+
+def chunked_wire(pieces):
+    return b''.join(b'%x\r\n' % len(pc) + bytes(pc) + CRLF for pc in pieces) + b'0\r\n\r\n'
 
 
 def sweep(B, body):
@@ -568,15 +674,28 @@ def run_impl(case):
     chunks = [bytes(c) for c in case['chunks']]
     body = b''.join(chunks)
     obs = dict(one=parse_chunks(B, [body]), wf=py_wf(B, body))
-    if case['via'] == 'markup':
-        obs['stream'] = parse_chunks(B, chunks)
+    if case['via'] in ('markup', 'markup_str'):
+        obs['stream'] = parse_chunks(B, chunks, as_str=case['via'] == 'markup_str')
     elif case['via'] == 'sweep':
         obs['stream'] = obs['one']
         bad, n_runs = sweep(B, body)
         obs['sweep_bad'] = bad
         obs['sweep_runs'] = n_runs
     elif case['via'] == 'wsgi_frag':
-        w = wsgi_call(B, body, case['buf'], case['sched'])
+        data = bytes(case.get('data', body))
+        w = wsgi_call(B, data, case['buf'], case['sched'], cl=case.get('cl'), maxb=case.get('maxb'),
+                      ctype=case.get('ctype', 0), warm=case.get('warm', False))
+        obs['stream'] = w.pop('markup', None)
+        obs['wsgi'] = w
+        # reference: the bytes the server may read (the first Content-Length bytes), in one piece, no limit
+        obs['wsgi_one'] = wsgi_call(B, body, max(case['buf'], len(body) + 1), [])
+        obs['wsgi_one'].pop('markup', None)
+        if obs['stream'] is None or str(obs['stream'].get('err', '')).startswith('body:'):
+            obs['stream_missing'] = True
+    elif case['via'] == 'wsgi_chunked':
+        pieces = [bytes(pc) for pc in case['pieces']]
+        wire = chunked_wire(pieces)
+        w = wsgi_call(B, wire, case['buf'], [], cl=(len(body) + 3 if case.get('with_cl') else None), chunked=True)
         obs['stream'] = w.pop('markup', None)
         obs['wsgi'] = w
         obs['wsgi_one'] = wsgi_call(B, body, max(case['buf'], len(body) + 1), [])
@@ -594,8 +713,17 @@ def project(obs, case):
     return dict(stream=obs.get('stream'), one=obs.get('one'), wf=obs.get('wf'))
 
 
+def body_rejected(case):
+    """max_body_size is exceeded: the request is refused with 413 while the body is read (C13's subject)"""
+    return case.get('maxb') is not None and sum(len(c) for c in case['chunks']) > case['maxb']
+
+
 def encode(case):
-    return enc_str(case['boundary']) + enc_list(case['chunks'], enc_str)
+    if case['via'] == 'wsgi_frag' and not body_rejected(case):
+        # the model derives the parts from the stream itself (MultipartFeed.body_parts)
+        return ([1, case['cl'], case['buf']] + enc_str(case['boundary']) + enc_str(case['data'])
+                + enc_list(case['sched'], lambda k: [k]))
+    return [0] + enc_str(case['boundary']) + enc_list(case['chunks'], enc_str)
 
 
 ERRS = {0: None, 1: 'InvalidBoundaryError', 2: 'MalformedHeadersError', 3: 'UnexpectedBodyEndError',
@@ -610,6 +738,8 @@ def decode(out, case):
         return dict(secs=secs, err=ERRS.get(r.int(), 'model:?'))
     stream = one()
     ref = one()
+    if body_rejected(case):
+        stream = dict(secs=[], err='body:HTTPError:413')
     return dict(stream=stream, one=ref, wf=r.bool())
 
 
@@ -619,6 +749,12 @@ def oracle(case, obs):
         return 'unexpected outcome %s' % obs
     if case.get('wf') and not obs['wf']:
         return 'harness: grammar-generated body is not wf_prefix'
+    if obs.get('wsgi', {}).get('unstable'):
+        return obs['wsgi']['unstable']
+    if body_rejected(case):
+        if obs.get('wsgi', {}).get('status') != '413':
+            return 'body above max_body_size was not refused with 413: %s' % obs.get('wsgi')
+        return None
     if not obs['wf']:
         return None
     if obs['stream'] != obs['one']:
@@ -628,7 +764,7 @@ def oracle(case, obs):
         b = obs['sweep_bad'][0]
         return ('parsing depends on the split: prefix of %d bytes cut as %s gives %s, in one piece %s'
                 % (b['prefix'], [len(c) for c in b['chunks']], b['got'], b['one']))
-    if case['via'] in ('wsgi', 'wsgi_frag'):
+    if case['via'] in ('wsgi', 'wsgi_frag', 'wsgi_chunked'):
         w, w1 = obs['wsgi'], obs['wsgi_one']
         if 'too_large' in (w.get('post'), w1.get('post')):
             return None          # the in-memory budget (= buffer size) is exceeded: C13, not the chunking
@@ -667,15 +803,21 @@ def classify(case, obs):
 def shrink(case):
     ch = case['chunks']
     if case['via'] == 'wsgi_frag':
-        B, body, sc = bytes(case['boundary']), b''.join(bytes(c) for c in ch), case['sched']
+        B, body, sc = bytes(case['boundary']), bytes(case['data']), case['sched']
+        kw = dict(wf=case.get('wf'), label=case.get('label', ''), cl=case['cl'], maxb=case.get('maxb'),
+                  ctype=case.get('ctype', 0), warm=case.get('warm', False))
         for i in range(len(sc)):
-            yield mk_frag(B, body, case['buf'], sc[:i] + sc[i + 1:], wf=case.get('wf'), label=case.get('label', ''))
+            yield mk_frag(B, body, case['buf'], sc[:i] + sc[i + 1:], **kw)
         if len(sc) > 1:
-            yield mk_frag(B, body, case['buf'], sc[:1], wf=case.get('wf'), label=case.get('label', ''))
+            yield mk_frag(B, body, case['buf'], sc[:1], **kw)
         for nb in (len(body), len(body) + 1):
             if nb != case['buf']:
-                yield mk_frag(B, body, nb, sc, wf=case.get('wf'), label=case.get('label', ''))
-        yield dict(case, via='markup')
+                yield mk_frag(B, body, nb, sc, **kw)
+        for k2 in ('warm', 'ctype', 'maxb'):
+            if kw[k2]:
+                yield mk_frag(B, body, case['buf'], sc, **dict(kw, **{k2: (False if k2 == 'warm' else 0 if k2 == 'ctype' else None)}))
+        if kw['cl'] != len(body):
+            yield mk_frag(B, body, case['buf'], sc, **dict(kw, cl=len(body)))
         return
     if case['via'] != 'markup':
         yield dict(case, via='markup')
@@ -786,6 +928,35 @@ if _os.environ.get('VERIF_COVERAGE') == '1':
             return _plain_run_impl(case)
         finally:
             _sys.settrace(None)
+
+
+# every public callable / parameter / config key of the anchored code that can influence what C06 observes
+API_SURFACE = [
+    ('MultipartMarkup(boundary: bytes)', 'covered by markup (all generators)'),
+    ('MultipartMarkup(boundary: str)', 'covered by markup_str (ASCII boundaries; a non-ASCII str boundary would be '
+                                       'UTF-8 encoded — excluded: RFC 2046 boundaries are 7-bit)'),
+    ('MultipartMarkup(boundary containing CR)', 'covered by markup/CR in boundary (InvalidBoundaryError)'),
+    ('MultipartMarkup.parse(chunk) incl. empty chunks, chunks after the end, chunks after an error',
+     'covered by markup (gen_cuts inserts empty chunks; F7 witnesses; malformed stream)'),
+    ('MultipartMarkup.markups / .error', 'observed by every kind'),
+    ('BodyMarkuper.iter_markup / _eat_start_boundary / _eat_data, MatchTail.match_tail, HeadersEaeter.*',
+     'covered through MultipartMarkup.parse (242/242 lines of the anchored functions, VERIF_COVERAGE=1)'),
+    ('BytesIOProxy, FieldStorage, Header (same file)', 'excluded: C07 (content of the parts), not the split'),
+    ('_body_read(read=...)', 'covered by wsgi (BytesIO), wsgi_frag (FragStream: short reads, 1-byte reads, early EOF)'),
+    ('_body_read(buff_size) = config max_memfile_size', 'covered by wsgi / wsgi_frag: below, at, above the body size, 102400'),
+    ('_body_read(content_length)', 'covered by wsgi_frag: equal to, above (early EOF) and below the data'),
+    ('_body_read(chunked=True)', 'covered by wsgi_chunked (transfer chunks of any sizes, with and without Content-Length)'),
+    ('_body_read(max_body_size) = config max_body_size', 'covered by wsgi_frag maxb: None, = size, > size, < size (413)'),
+    ('_body_read(markup=None)', 'excluded: no multipart content type, nothing for C06 to observe'),
+    ('BodyMixin._body: CONTENT_TYPE -> boundary', 'covered by wsgi_frag ctype variants (parameters before/after '
+                                                  'boundary=, multipart/mixed); quoted boundary / other letter case '
+                                                  'excluded: they change WHICH boundary is used (or whether any), not '
+                                                  'how the body is split'),
+    ('Request.body / .forms / .files / .POST, repeated access', 'covered by wsgi_frag, wsgi_chunked (second access must agree)'),
+    ('application / request object reused for a second upload', 'covered by wsgi_frag warm'),
+    ('config via Ombott(dict) / DefaultConfig(dict)', 'covered by wsgi_frag / wsgi; setup() excluded: same DefaultConfig path (C13)'),
+    ('module-level state of multipart.py', 'none besides constants and the compiled end_headers_patt (pinned)'),
+]
 
 
 PREDICATES = {}
